@@ -902,7 +902,7 @@ def c12(ctx):
 # ---------------------------------------------------------------------------
 # C08  verdicts depend only on the log: never on cache, repetition or checkpoint
 
-CACHE_DEVS = {"StaleCachePolicyLookup", "LatestOnlySetsCheckpoint"}
+CACHE_DEVS = {"StaleCachePolicyLookup", "LatestOnlySetsCheckpoint", "CheckpointIgnoresLaterRevocations"}
 
 
 def c08(ctx):
@@ -920,11 +920,20 @@ def c08(ctx):
         if x.get("t") == "SCN" and k not in seen:
             seen.add(k)
             scns.append(x)
+    def reft_(s, par):
+        return {"a": "grow", "e": {"k": "ref", "ref": "main", "s": s, "tree": 1, "par": par, "v": "", "tg": [], "apps": [], "crs": []}}
+
+    def ann_(pos):
+        return {"a": "grow", "e": {"k": "ann", "tg": [pos], "s": "p1", "ref": "", "tree": 0, "par": 0, "v": "", "apps": [], "crs": []}}
+
     # the checkpoint witness is always replayed
     def ref(s, par):
         return {"a": "grow", "e": {"k": "ref", "ref": "main", "s": s, "tree": 1, "par": par, "v": "", "tg": [], "apps": [], "crs": []}}
     scns.append({"t": "SCN", "acts": [ref("p3", 0), ref("p1", 2), {"a": "populate"}, {"a": "verify", "mode": "full", "ref": "main"},
                                       {"a": "verify", "mode": "latest", "ref": "main"}, {"a": "verify", "mode": "full", "ref": "main"}]})
+    # a checkpoint followed by the revocation of an entry before it (TLC's 7-action counterexample to the ideal cache)
+    scns.append({"t": "SCN", "acts": [{"a": "populate"}, reft_("p1", 0), reft_("p3", 2), ann_(3), reft_("p1", 3),
+                                      {"a": "verify", "mode": "full", "ref": "main"}, ann_(2), {"a": "verify", "mode": "full", "ref": "main"}]})
     # recovery histories beyond the exhaustive bound, with the cache populated at every point and verification repeated: a revoked
     # violation, optionally a second violation that is not revoked, the fix, then two or three full verifications
     def reft(s, par, tree):
